@@ -603,6 +603,13 @@ class Compiler:
             self._completion_muted -= 1
 
     def _compile_statement(self, node: Node) -> None:
+        """Compile a statement; its code is mapped to its source position."""
+        enclosing_loc = self._current_loc
+        self._set_loc(node)
+        self._compile_statement_code(node)
+        self._current_loc = enclosing_loc
+
+    def _compile_statement_code(self, node: Node) -> None:
         """Compile a statement."""
         if isinstance(
             node,
@@ -959,7 +966,6 @@ class Compiler:
                 self._emit(OpCode.RETURN_UNDEFINED)
 
         elif isinstance(node, ThrowStatement):
-            self._set_loc(node)  # Record location of throw statement
             self._compile_expression(node.argument)
             self._emit(OpCode.THROW)
 
